@@ -1,5 +1,6 @@
 import TlsModel.Proto
 import TlsModel.Transcript
+import TlsModel.TranscriptKeys
 /-
   Driver for C04 (one request line, one reply line; hex for bytes, `-` = empty).
 
@@ -16,6 +17,8 @@ import TlsModel.Transcript
     realver chmaj chmin ext                           -> M N
     script flow opts                                  -> events in wire order (C:1 S:2 ccsS finC restart …)
     shape flow opts                                   -> handshake types hashed, in order, at completion
+    points13 flow opts                                -> hs sCV sFin ap cCV cFin res offset  (transcript lengths, RFC 8446 7.1)
+    points12 flow opts                                -> ems cFin sFin
     detector flow opts i                              -> client | server | client,server | none
     run side flow opts htable cfin sfin produce input -> ok <transcript> <pre> | abort:<why>
              htable  in:out;…  (digest oracle for message_hash, computed by the harness with hashlib)
@@ -26,7 +29,7 @@ import TlsModel.Transcript
     trunc ch binders(b1,b2)                           -> psk_truncate
     hrr   ch1 ch2 groups selected cookie              -> ok | err:<why>      (hello: v;random;sid;suites;comp;typ:data,…)
 -/
-open Tls Tls.Transcript
+open Tls Tls.Transcript Tls.Transcript.GenBase Tls.Transcript.Keys
 
 def parseVer (a b : String) : Option Version := do some (← a.toNat?, ← b.toNat?)
 
@@ -173,6 +176,21 @@ def handle : List String → Option String
     some (" ".intercalate ((flowScript (← parseFlow f) (← parseOpts o)).map evName))
   | ["shape", f, o] => do
     some (natsOut ((shapeOf (flowScript (← parseFlow f) (← parseOpts o)) []).map (·.toNat)))
+  | ["points13", f, o] => do
+    let f ← parseFlow f
+    let o ← parseOpts o
+    match specPoints13 f o with
+    | none => some "none"
+    | some p =>
+      let off := (shapeOf (flowScript f o) []).length - (hashedFromLastHello (flowScript f o)).length
+      let on (x : Option Nat) : String := match x with
+        | some n => toString n
+        | none => "-"
+      some s!"{p.hs} {on p.sCertVerify} {p.sFinished} {p.ap} {on p.cCertVerify} {p.cFinished} {p.res} {off}"
+  | ["points12", f, o] => do
+    match specPoints12 (← parseFlow f) (← parseOpts o) with
+    | none => some "none"
+    | some p => some s!"{match p.ems with | some n => toString n | none => "-"} {p.cFinished} {p.sFinished}"
   | ["detector", f, o, i] => do
     let l := detectors (← parseFlow f) (← parseOpts o) (← i.toNat?)
     some (if l.isEmpty then "none" else ",".intercalate (l.map sideName))
